@@ -119,9 +119,11 @@ Fixpoint compl_loop (fuel : nat) (n i : Z) (a : list Z) : res (list Z) :=
       end
     end
   else Ret [].
-(* make([]int, 0, n-len(a)) panics when len(a) > n *)
+(* size := n - len(a); if size < 0 { size = 0 }; make([]int, 0, size) *)
 Definition complement (n : Z) (a : list Z) : res (list Z) :=
-  with_cap (n - len a) (compl_loop (Z.to_nat n + length a) n 0 a).
+  let size := n - len a in
+  let size := if size <? 0 then 0 else size in
+  with_cap size (compl_loop (Z.to_nat n + length a) n 0 a).
 
 (* ---------------------------------------------------------------- Range *)
 Fixpoint range_loop (fuel : nat) (i e step : Z) : res (list Z) :=
